@@ -185,8 +185,8 @@ class Sched:
     # ------------------------------------------------------------------ choices
     def choose(self, n, kind):
         """Environment or scheduling choice among n options; option 0 is the default and free."""
-        if n <= 1:
-            return 0
+        if n <= 1 or getattr(self, "frozen", False):
+            return 0  # frozen: a driver's set-up phase runs under the default schedule, no choice is offered
         if self.used[kind] >= self.budgets.get(kind, 0):
             return 0  # budget exhausted: not offered
         idx = len(self.trace)
